@@ -1,6 +1,7 @@
 package main
 
 import (
+	"go/constant"
 	"fmt"
 	"go/token"
 	"go/types"
@@ -560,6 +561,96 @@ func c08R3(p *Prog, r *Report) {
 	// npre >= 4, nsamp - npre >= 4, nsamp - npre >= nmonotone are the accepting outcomes
 	okC := outcomes["-4 + s.npre"] && outcomes["-4 - s.npre + s.nsamp"] && outcomes["-s.nmonotone - s.npre + s.nsamp"]
 	r.Check(okC, "C08.R3", "validity = 4 samples each side for the refinement, monotone count within the post-trigger part", p.Pos(valid.Pos()), joined, "the validity rule is `"+joined+"`")
+	// ... and how the clauses are combined: valid() is decided for every truth assignment of its
+	// atoms (refinement enabled; npre >= 4; nsamp-npre >= 4; nmonotone <= nsamp-npre) by conditional
+	// constant propagation with the comparisons assumed, and must equal
+	// (not enabled or (npre >= 4 and post >= 4)) and monotone-fits
+	if okC {
+		type atom struct {
+			v   ssa.Value
+			neg bool // the instruction is true when the atom is false
+		}
+		atoms := map[string][]atom{}
+		canon := map[string]string{"-4 + s.npre": "A", "-4 - s.npre + s.nsamp": "B", "-s.nmonotone - s.npre + s.nsamp": "M"}
+		Instrs(valid, func(in ssa.Instruction) {
+			switch x := in.(type) {
+			case *ssa.BinOp:
+				if !isIntLike(x.X.Type()) {
+					return
+				}
+				xp, yp := pc.Of(x.X), pc.Of(x.Y)
+				one := polyConst(1)
+				var t, f Poly
+				switch x.Op {
+				case token.LSS:
+					t, f = yp.Sub(xp).Sub(one), xp.Sub(yp)
+				case token.LEQ:
+					t, f = yp.Sub(xp), xp.Sub(yp).Sub(one)
+				case token.GTR:
+					t, f = xp.Sub(yp).Sub(one), yp.Sub(xp)
+				case token.GEQ:
+					t, f = xp.Sub(yp), yp.Sub(xp).Sub(one)
+				default:
+					return
+				}
+				if a := canon[clean(t)]; a != "" {
+					atoms[a] = append(atoms[a], atom{x, false})
+				} else if a := canon[clean(f)]; a != "" {
+					atoms[a] = append(atoms[a], atom{x, true})
+				}
+			case *ssa.UnOp:
+				if _, f, _, ok := FieldOf(x); ok && f == "enableZeroThreshold" {
+					atoms["Z"] = append(atoms["Z"], atom{x, false})
+				}
+			}
+		})
+		wrong, undecided := "", false
+		if len(atoms["A"]) > 0 && len(atoms["B"]) > 0 && len(atoms["M"]) > 0 && len(atoms["Z"]) > 0 {
+			for bits := 0; bits < 16; bits++ {
+				val := map[string]bool{"Z": bits&1 != 0, "A": bits&2 != 0, "B": bits&4 != 0, "M": bits&8 != 0}
+				env := map[ssa.Value]lat{}
+				for name, as := range atoms {
+					for _, a := range as {
+						env[a.v] = latBool(val[name] != a.neg)
+					}
+				}
+				res := sccp(valid, env)
+				got, known, first := false, true, true
+				Instrs(valid, func(in ssa.Instruction) {
+					ret, ok := in.(*ssa.Return)
+					if !ok || !res.Executable(ret) || len(ret.Results) != 1 {
+						return
+					}
+					l := res.Get(ret.Results[0])
+					if !l.isConst() || l.c == nil || l.c.Kind() != constant.Bool {
+						known = false
+						return
+					}
+					b := constant.BoolVal(l.c)
+					if !first && b != got {
+						known = false
+					}
+					got, first = b, false
+				})
+				if !known || first {
+					undecided = true
+					continue
+				}
+				want := (!val["Z"] || (val["A"] && val["B"])) && val["M"]
+				if got != want && wrong == "" {
+					wrong = fmt.Sprintf("with refinement enabled=%v, npre>=4 %v, post-trigger>=4 %v, monotone count fits %v the state is judged valid=%v (want %v)", val["Z"], val["A"], val["B"], val["M"], got, want)
+				}
+			}
+			switch {
+			case wrong != "":
+				r.Bad("C08.R3", "the clauses of the validity rule are combined as: (refinement off, or 4 samples on each side) and the monotone count fits", p.Pos(valid.Pos()), wrong+": a state the refinement cannot work on is accepted, and the refinement then reads samples before the start or past the end of the data it is given (index out of range in the block-processing goroutine), depending on where a block boundary falls")
+			case undecided:
+				r.Unk("C08.R3", "the clauses of the validity rule are combined as: (refinement off, or 4 samples on each side) and the monotone count fits", p.Pos(valid.Pos()), "the result of the validity function is not a constant for some assignment of its four atoms: other conditions take part")
+			default:
+				r.OK("C08.R3", "the clauses of the validity rule are combined as: (refinement off, or 4 samples on each side) and the monotone count fits", p.Pos(valid.Pos()), "16 assignments of the four atoms evaluated by conditional constant propagation")
+			}
+		}
+	}
 	for _, name := range []string{"ConfigureTrigger", "ConfigurePulseLengths"} {
 		fn := p.Func("", "DataStreamProcessor", name)
 		if fn == nil {
@@ -716,6 +807,75 @@ func c08R5(p *Prog, r *Report) {
 	if hdr == nil {
 		r.Bad("C08.R5", "the finder's search loop", p.Pos(fn.Pos()), "no loop that tests the search index against the last searchable index was found")
 		return
+	}
+	// the reported trigger index depends on where the search started only through the loop
+	// variable (the sample at which the edge was found): a direct use of the starting index in the
+	// reported index (a clamp to it) makes the result depend on where the previous block ended
+	{
+		hph := hdr.Instrs[len(hdr.Instrs)-1].(*ssa.If).Cond.(*ssa.BinOp).X.(*ssa.Phi)
+		var start ssa.Value
+		for i, e := range hph.Edges {
+			if !hdr.Dominates(hdr.Preds[i]) {
+				start = stripConv(e)
+			}
+		}
+		if prm, isPrm := start.(*ssa.Parameter); isPrm {
+			nret := 0
+			Instrs(fn, func(in ssa.Instruction) {
+				ret, ok := in.(*ssa.Return)
+				if !ok || len(ret.Results) == 0 {
+					return
+				}
+				// the value stored into the result's index field on this return
+				var idxVals []ssa.Value
+				if ld, isLd := returnedValue(ret, 0).(*ssa.UnOp); isLd {
+					if al, isAl := ld.X.(*ssa.Alloc); isAl {
+						stt := derefStruct(al.Type())
+						for _, ref := range *al.Referrers() {
+							fa, ok := ref.(*ssa.FieldAddr)
+							if !ok || stt == nil || stt.Field(fa.Field).Name() != "triggerInd" {
+								continue
+							}
+							for _, r2 := range *fa.Referrers() {
+								if s2, ok := r2.(*ssa.Store); ok && s2.Addr == ssa.Value(fa) {
+									idxVals = append(idxVals, s2.Val)
+								}
+							}
+						}
+					}
+				}
+				for _, v := range idxVals {
+					if k, isC := constInt(v); isC && k == 0 {
+						continue // the not-found return
+					}
+					nret++
+					direct := ""
+					seen := map[ssa.Value]bool{}
+					var walk func(x ssa.Value, d int)
+					walk = func(x ssa.Value, d int) {
+						if x == nil || seen[x] || d > 12 || x == ssa.Value(hph) {
+							return
+						}
+						seen[x] = true
+						if x == ssa.Value(prm) {
+							direct = prm.Name()
+							return
+						}
+						if in2, ok := x.(ssa.Instruction); ok {
+							var ops []*ssa.Value
+							for _, o := range in2.Operands(ops) {
+								walk(*o, d+1)
+							}
+						}
+					}
+					walk(v, 0)
+					r.Check(direct == "", "C08.R5", "the reported trigger index depends on the search start only through the sample at which the edge was found", p.InstrPos(ret),
+						"the index is computed from the loop variable and the samples",
+						"the index reported for a found edge uses the search start `"+direct+"` directly (a clamp or offset), not only through the loop variable: the search start is where the previous block's search ended, so the same edge gets a different trigger index depending on how the stream is cut into blocks")
+				}
+			})
+			_ = nret
+		}
 	}
 	body := hdr.Succs[0]
 	// a guard before the loop that makes the same test on the loop's starting index (the window
